@@ -135,6 +135,7 @@ package kmipclient
 //@   loop 0 invariant -1 <= rangeindex && rangeindex < len(br0) && len(res) == len(br0)
 //@   loop 0 invariant forall j int :: 0 <= j && j < len(errs) ==> errs[j] != nil
 //@   loop 0 invariant (len(errs) > 0) == (exists j int :: 0 <= j && j <= rangeindex && br0[j].ResultStatus != kmip.ResultStatusSuccess)
+//@   loop 0 ghostmod itemErrRet, itemErrStatus, itemErrReason, itemErrMsg
 
 //@ spec oneItemResp(r *kmip.ResponseMessage) bool = r != nil && len(r.BatchItem) == 1
 
